@@ -161,6 +161,9 @@ pub struct RunSpec {
     pub clock_start: i64,
     #[serde(default)]
     pub random_seed: u64,
+    /// the host never delivers requested modules: the run ends "abandoned" at its first NeedImports
+    #[serde(default)]
+    pub withhold_imports: bool,
 }
 
 #[derive(Clone, Debug, Default)]
@@ -458,6 +461,10 @@ impl Run {
         if self.spec.gc.force_at_suspend {
             h.interp.collect();
             self.out.forced_collects += 1;
+        }
+        if self.spec.withhold_imports {
+            self.finish("abandoned:need-imports".into());
+            return;
         }
         // default: provide everything requested, in request order
         let needed = self.needed.clone();
